@@ -393,8 +393,12 @@ class Env:
             raise Reject("ValueError" if self.mode == "on" else "ColumnNotFoundError", f"{cid} not in scope")
         if m in ("C", "str"):
             cid = st.name_to_cid(t[2])
-            if cid is None and self.right is not None:
-                cid = self.right.name_to_cid(t[2])
+            if self.right is not None:
+                rcid = self.right.name_to_cid(t[2])
+                if cid is not None and rcid is not None and self.mode == "on" and not getattr(self, "merged", False):
+                    raise Reject("ValueError", f"C.{t[2]} is ambiguous in a join condition")
+                if cid is None:
+                    cid = rcid
             if cid is None:
                 raise Reject("ValueError" if self.mode == "on" else "ColumnNotFoundError", f"no column named {t[2]}")
             return cid
@@ -1308,6 +1312,7 @@ class Model:
         merged_rows = [m for _, _, m in allcols_env_rows]
         ok = [True] * len(merged_rows)
         jenv = Env(_merge_scope(st, rt), states, mode="on", right=rt, right_states=rstates, model=self)
+        jenv.merged = True  # ambiguity of C-references was decided above, on the two sides
         for o in on_terms:
             if o[0] == "eqcid":
                 vals = [s_binop("eq", m[o[1]], m[o[2]]) for m in merged_rows]
